@@ -1107,8 +1107,13 @@ def c12_actor_trees(tier, seed, n_quick=50, scale=8):
     for flavor in ("sync", "async"):
         cases = directed_cases() + [gen_case(seed, prof, i) for prof in PROFILES for i in range(n)]
         rs = _pool_map([(flavor, c, 40) for c in cases])
+        retried = 0
         for c, (st, res) in zip(cases, rs):
             evals += 1
+            if st == "hang" and retried < 12:
+                # a watchdog cut (or an unanswered worker) on a loaded machine is not a verdict: once more, alone
+                retried += 1
+                st, res = worker((flavor, c, 120))
             if st != "ok":
                 fails.append({"kind": "hang" if st == "hang" else "raw-exception", "flavor": flavor, "case": _payload(c),
                               "detail": f"cut-point run over an actor tree ended with {st}: {res}"})
